@@ -6,9 +6,7 @@
 use crate::c03::file_model;
 use proptest::prelude::*;
 use serde::{Deserialize, Serialize};
-use shapefile::{Error, Shape, ShapeReader};
-use std::io::Cursor;
-use vlib::alloc;
+use vlib::exercise::{exercise, Outcome};
 use vlib::gen;
 use vlib::kinds::*;
 use vlib::model::*;
@@ -199,198 +197,6 @@ pub fn materialise(c: &ByteCase) -> (Vec<u8>, Vec<u8>, bool) {
         }
     }
     (shp, shx, unbacked)
-}
-
-#[derive(Default)]
-pub struct Outcome {
-    pub opened: bool,
-    pub first_item: Option<Result<(), String>>,
-    pub ok_items: usize,
-    pub max_ratio: f64,
-}
-
-fn err_class(e: &Error) -> &'static str {
-    match e {
-        Error::IoError(_) => "IoError",
-        Error::InvalidFileCode(_) => "InvalidFileCode",
-        Error::InvalidShapeType(_) => "InvalidShapeType",
-        Error::InvalidPatchType(_) => "InvalidPatchType",
-        Error::MismatchShapeType { .. } => "MismatchShapeType",
-        Error::InvalidShapeRecordSize => "InvalidShapeRecordSize",
-        Error::DbaseError(_) => "DbaseError",
-        Error::MissingDbf => "MissingDbf",
-        Error::MissingIndexFile => "MissingIndexFile",
-    }
-}
-
-struct Ex<'a> {
-    shp: &'a [u8],
-    shx: &'a [u8],
-    cap: usize,
-    bound: usize,
-    check_alloc: bool,
-    out: Outcome,
-}
-
-impl<'a> Ex<'a> {
-    /// One reader call under catch_unwind and the allocation window.
-    fn call<R>(&mut self, what: &str, f: impl FnOnce() -> R) -> Result<R, Fail> {
-        let (r, peak) = alloc::window(|| guard(f));
-        let r = match r {
-            Ok(r) => r,
-            Err(p) => return Err(Fail::new(&panic_key(&p), format!("{}: panic: {}", what, p))),
-        };
-        let ratio = peak.peak as f64 / (self.shp.len() + self.shx.len()).max(1) as f64;
-        if ratio > self.out.max_ratio {
-            self.out.max_ratio = ratio;
-        }
-        if self.check_alloc && peak.peak > self.bound {
-            return Err(Fail::new(
-                "alloc-bound",
-                format!(
-                    "{}: peak of {} bytes requested (largest single request {}) for {} + {} input bytes; bound is 64 x input + 16 KiB = {}",
-                    what,
-                    peak.peak,
-                    peak.largest,
-                    self.shp.len(),
-                    self.shx.len(),
-                    self.bound
-                ),
-            ));
-        }
-        Ok(r)
-    }
-
-    fn iterate<S: shapefile::ReadableShape>(&mut self, what: &str, r: &mut ShapeReader<Cursor<&'a [u8]>>, note_first: bool) -> Result<(), Fail> {
-        let mut it = r.iter_shapes_as::<S>();
-        let mut n = 0usize;
-        loop {
-            let item = self.call(&format!("{} next() #{}", what, n), || it.next().map(|r| r.map(|_| ())))?;
-            match item {
-                None => break,
-                Some(r) => {
-                    if note_first && n == 0 {
-                        self.out.first_item = Some(r.as_ref().map(|_| ()).map_err(|e| err_class(e).to_string()));
-                        self.out.opened = true;
-                    }
-                    if r.is_ok() && note_first {
-                        self.out.ok_items += 1;
-                    }
-                    n += 1;
-                    ensure!(
-                        n <= self.cap,
-                        "unbounded-iteration",
-                        "{}: more than {} items from {} + {} input bytes (last: {:?})",
-                        what,
-                        self.cap,
-                        self.shp.len(),
-                        self.shx.len(),
-                        r.as_ref().map_err(err_class)
-                    );
-                }
-            }
-        }
-        Ok(())
-    }
-
-    fn open(&mut self, what: &str, with_shx: bool) -> Result<Option<ShapeReader<Cursor<&'a [u8]>>>, Fail> {
-        let (shp, shx) = (self.shp, self.shx);
-        let r = self.call(&format!("{} open", what), move || {
-            if with_shx {
-                ShapeReader::with_shx(Cursor::new(shp), Cursor::new(shx))
-            } else {
-                ShapeReader::new(Cursor::new(shp))
-            }
-        })?;
-        Ok(r.ok())
-    }
-
-    fn run_typed<K: Kind>(&mut self) -> Result<(), Fail>
-    where
-        Error: From<<K as TryFrom<Shape>>::Error>,
-    {
-        for with in [false, true] {
-            let tag = if with { "typed+shx" } else { "typed" };
-            if let Some(mut r) = self.open(tag, with)? {
-                self.iterate::<K>(tag, &mut r, false)?;
-            }
-            if let Some(r) = self.open(tag, with)? {
-                self.call(&format!("{} read_as", tag), move || r.read_as::<K>().map(|v| v.len()))?.ok();
-            }
-        }
-        Ok(())
-    }
-
-    fn run(&mut self) -> Result<(), Fail> {
-        // A: no index, generic
-        if let Some(mut r) = self.open("noshx", false)? {
-            let _ = r.header().shape_type;
-            self.iterate::<Shape>("noshx iter_shapes", &mut r, true)?;
-            // a second iteration on the same reader must terminate as well
-            self.iterate::<Shape>("noshx iter_shapes (again)", &mut r, false)?;
-        }
-        if let Some(r) = self.open("noshx", false)? {
-            self.call("noshx read()", move || r.read().map(|v| v.len()))?.ok();
-        }
-        // B: typed, matching the header type and not matching
-        let hty = if self.shp.len() >= 36 {
-            Ty::from_code(i32::from_le_bytes(self.shp[32..36].try_into().unwrap()))
-        } else {
-            None
-        };
-        let matching = hty.filter(|t| *t != Ty::Null).unwrap_or(Ty::Polygon);
-        let other = if matching == Ty::PolylineZ { Ty::Multipatch } else { Ty::PolylineZ };
-        for t in [matching, other] {
-            struct T<'b, 'a>(&'b mut Ex<'a>);
-            impl KindFn for T<'_, '_> {
-                type Out = Result<(), Fail>;
-                fn call<K: Kind>(self) -> Self::Out
-                where
-                    Error: From<<K as TryFrom<Shape>>::Error>,
-                {
-                    self.0.run_typed::<K>()
-                }
-            }
-            dispatch(t, T(self))?;
-        }
-        // D: with index
-        if let Some(mut r) = self.open("shx", true)? {
-            let n = r.shape_count().unwrap_or(0);
-            self.iterate::<Shape>("shx iter_shapes", &mut r, false)?;
-            let mut idx: Vec<usize> = vec![0, 1, n.wrapping_sub(1), n, usize::MAX];
-            if n <= 8 {
-                idx.extend(0..n);
-            }
-            for i in idx {
-                self.call(&format!("shx read_nth_shape({})", i), || r.read_nth_shape(i).map(|x| x.map(|_| ())))?;
-            }
-            for i in [0usize, 1, n, usize::MAX] {
-                let sk = self.call(&format!("shx seek({})", i), || r.seek(i).is_ok())?;
-                if sk {
-                    self.iterate::<Shape>(&format!("shx seek({}) then iter_shapes", i), &mut r, false)?;
-                }
-            }
-            self.call("shx shape_count", || r.shape_count().ok())?;
-        }
-        if let Some(r) = self.open("shx", true)? {
-            self.call("shx read()", move || r.read().map(|v| v.len()))?.ok();
-        }
-        Ok(())
-    }
-}
-
-pub fn exercise(shp: &[u8], shx: &[u8], check_alloc: bool) -> Result<Outcome, Fail> {
-    let total = shp.len() + shx.len();
-    let mut ex = Ex {
-        shp,
-        shx,
-        cap: shp.len() / 8 + shx.len() / 8 + 16,
-        bound: 64 * total + 16 * 1024,
-        check_alloc,
-        out: Outcome::default(),
-    };
-    ex.run()?;
-    Ok(ex.out)
 }
 
 fn check_case(c: &ByteCase, ctx: &mut Ctx, check_alloc: bool) -> Result<(), Fail> {
